@@ -18,6 +18,7 @@ IDS = [0, 1, 1000, 65534, 65535, 65536, 2 ** 31 - 1, 2 ** 31, 2 ** 32 - 2]
 
 
 def run(ctx):
+    import conc
     ctx.level = "proof"
     proved = vlib.prove(ctx, ["Properties_C03.v"], facts=["cred", "base64"])
     ctx.log("proofs:", "ok" if proved else "BROKEN: " + getattr(ctx, "broken_obligation", "?"))
@@ -202,8 +203,33 @@ def run(ctx):
         rco, repo = co.stop()
         if repo.strip():
             ctx.violation("sanitizer report from the daemon under %s" % " ".join(opts), {"report": repo[:3000]}, found_input=False)
+    # ... nor on where the daemon runs relative to its clients: munged in its own PID namespace (a container sharing the socket
+    # directory): the kernel then reports pid 0 for the peer, uid and gid as ever
+    import shutil
+    if shutil.which("unshare"):
+        dn = rig.Daemon(ctx, exe, tag="c03ns", nthreads=2, launcher=["unshare", "--pid", "--fork", "--kill-child=TERM"])
+        if dn.start():
+            for (u, g) in pairs[:4] + [(54321, 12345), (0, 7)]:
+                r, st = rig.encode(dn.sock, uid=u, gid=g, cipher=0, mac=5, zip_=0, data=b"ns")
+                ctx.count(("pidns", u, g))
+                dist["pid-namespace"] = dist.get("pid-namespace", 0) + 1
+                if r is None or r["error_num"] != 0:
+                    fails.append({"why": "munged in its own PID namespace: encode failed for peer %s: %s" % ((u, g), r and r["error_str"]), "kind": "pidns"})
+                    continue
+                got = conc.cred_ids(r["data"]) if True else None
+                if got != (u, g):
+                    fails.append({"why": "munged in its own PID namespace: a credential requested by euid=%d egid=%d records identity %s"
+                                         % (u, g, got), "kind": "pidns", "cred_hex": r["data"].hex()})
+                r0, st = rig.encode(dn.sock, uid=5, gid=6, auth_uid=0, data=b"root only")
+                if r0 and r0["error_num"] == 0 and u != 0:
+                    dd, st = rig.decode(dn.sock, r0["data"], uid=u, gid=g)
+                    if dd is None or dd["error_num"] in (0, 15, 16, 17) or dd["data_len"] != 0:
+                        fails.append({"why": "munged in its own PID namespace: a credential restricted to uid 0 was disclosed to euid=%d egid=%d"
+                                             % (u, g), "kind": "pidns"})
+            dn.stop()
+        else:
+            ctx.notes.append("munged could not be started under unshare --pid (phase skipped)")
     # per-connection: clients with different identities (values >= 2^31 included) being authenticated at the same instant
-    import conc
     probs, rep, nreq = conc.identity_race(ctx, exe, nclients=12, seconds=20.0 if ctx.thorough else 5.0, nthreads=8)
     dist["concurrent-identity-requests"] = nreq
     ctx.count(("identity-race", 12))
